@@ -164,3 +164,34 @@ Proof.
       * left. split; [apply (proj2 (dedup_In str_eqb str_eqb_eq _ _)); apply mem_str_In; exact E | apply mem_str_In; exact H].
       * right. split; auto.
 Qed.
+
+(** membership of concrete triples by computation (used by the witnesses) *)
+Lemma in_triple_b x l : existsb (triple_eqb x) l = true -> In x l.
+Proof.
+  intros H. apply existsb_exists in H. destruct H as [y [Hy E]]. apply triple_eqb_eq in E. subst. exact Hy.
+Qed.
+
+Lemma notin_triple_b x l : existsb (triple_eqb x) l = false -> ~ In x l.
+Proof.
+  intros H Hin. assert (existsb (triple_eqb x) l = true); [|congruence].
+  apply existsb_exists. exists x. split; auto. apply triple_eqb_eq. reflexivity.
+Qed.
+
+Fixpoint nodup_b (l : list triple) : bool :=
+  match l with
+  | [] => true
+  | x :: r => negb (existsb (triple_eqb x) r) && nodup_b r
+  end.
+
+Lemma nodup_b_ok l : nodup_b l = true -> NoDup l.
+Proof.
+  induction l as [|x l IH]; cbn; intros H; constructor; apply andb_true_iff in H; destruct H as [H1 H2]; auto.
+  apply notin_triple_b. apply negb_true_iff. exact H1.
+Qed.
+
+Lemma nodup_b_false l : nodup_b l = false -> ~ NoDup l.
+Proof.
+  induction l as [|x l IH]; cbn; intros H Hn; [discriminate|]. inversion Hn; subst.
+  apply andb_false_iff in H. destruct H as [H|H]; [|apply IH; auto].
+  apply negb_false_iff in H. apply H2. apply in_triple_b. exact H.
+Qed.
